@@ -211,7 +211,8 @@ def part_b(run):
             o["custom_scalars_module"] = "crate::%s::scalars" % cid
         if rng.random() < 0.3:
             o["extern_enums"] = sorted(rng.sample(schema.of_kind("enum"), 1))
-        o["visibility"] = rng.choice(["pub", "pub(crate)", "inherited"])
+        # every form of visibility the struct can carry inside its module `crate::<cid>`
+        o["visibility"] = rng.choice(["pub", "pub(crate)", "inherited", "pub(super)", "pub(self)", "pub(in crate::%s)" % cid, "pub(in crate)", "pub(in super)"])
         c = C.make_case(cid, schema, doc, rng, options=o, features=feats)
         cases.append(c)
     fac = Factory("C18-%d" % run.seed)
@@ -241,7 +242,8 @@ def part_b(run):
         if o.get("extern_enums"):
             keys.append("extern_enums(%s)" % ", ".join(st(e) for e in o["extern_enums"]))
         rng.shuffle(keys)
-        vis = {"pub": "pub ", "pub(crate)": "pub(crate) ", "inherited": ""}[o["visibility"]]
+        vis = "" if o["visibility"] == "inherited" else o["visibility"] + " "
+        run.count("vis:" + re.sub(r"c\d+", "<module>", o["visibility"]))
         opname = c["doc_model"]["operations"][0]["name"]
         from .. import names as _names
         sname = _names.camel(opname) if (o.get("normalization") or "").lower().strip() == "rust" else opname
@@ -252,6 +254,15 @@ def part_b(run):
         c["support"] = C.support_for(Schema(c["schema_model"]), sup_opts)
         srcs[cid] = support_code(c) + attr
         written[cid] = {"attr": attr, "schema_rel": "../in/" + sp, "query_rel": "../in/" + cid + ".query.graphql", "struct": sname}
+    # rustc runs somewhere else than in the manifest directory (as under cargo in a workspace), and from there the same
+    # relative paths lead to other files: whoever resolves a path against the working directory reads these
+    elsewhere = os.path.join(fac.work, "elsewhere", "cwd")
+    os.makedirs(elsewhere)
+    os.makedirs(os.path.join(fac.work, "elsewhere", "in"))
+    for fn in os.listdir(ind):
+        with open(os.path.join(fac.work, "elsewhere", "in", fn), "w") as fh:
+            fh.write("type Query { decoy_from_the_working_directory: Int }\n" if ".schema." in fn else "query DecoyFromTheWorkingDirectory { decoy_from_the_working_directory }\n")
+    fac.rustc_cwd = elsewhere
     fake_gen = {c["id"]: {"outcome": "ok"} for c in cases}
     verdict = fac.compile(cases, fake_gen, check_only=True, files=srcs)
     entries = {}
@@ -304,7 +315,7 @@ def part_b(run):
         eo = e.get("options") or {}
         shard_dir = os.path.dirname(os.path.dirname(e["query_path"].replace("/../in/", "/X/in/"))) if False else None
         problems = []
-        manifest_dir = e["query_path"][: e["query_path"].index("/../in/")]
+        manifest_dir = os.path.join(fac.work, "shard%d" % fac.shard_of[cid]) if cid in getattr(fac, "shard_of", {}) else e["query_path"].split("/../in/")[0]
         if e["query_path"] != manifest_dir + "/" + written[cid]["query_rel"]:
             problems.append("query path %s != CARGO_MANIFEST_DIR/%s" % (e["query_path"], written[cid]["query_rel"]))
         if os.path.normpath(e["schema_path"]) != os.path.normpath(os.path.join(manifest_dir, written[cid]["schema_rel"])):
@@ -321,7 +332,7 @@ def part_b(run):
             "extern_enums": o.get("extern_enums") or [],
             "fragments_other_variant": bool(o.get("other_variant")), "skip_serializing_none": bool(o.get("skip_none")),
             "query_file": e["query_path"],
-            "module_visibility": {"pub": "pub", "pub(crate)": "pub(crate)", "inherited": ""}[o["visibility"]],
+            "module_visibility": "" if o["visibility"] == "inherited" else o["visibility"],
             "serde_path": "graphql_client::_private::serde",
         }
         run.count("real-derive-options-compared")
